@@ -15,3 +15,8 @@ package server
 //@   safety
 //@   loop 1
 //@     invariant 0 <= i
+
+// ---- C18 (oversized requests produce error responses): the body of an HTTP request is read through a reader limited to the
+// advertised maximum, whatever the request declares about its length (a chunked request declares nothing)
+//@ func newHTTPServerConn(r, w)
+//@   at-call LimitReader assert[body-read-through-the-advertised-limit] arg1 == maxRequestContentLength
